@@ -584,6 +584,7 @@ def run(ctx):
         "'no True+no error without verification' is applied to them",
         "a banner that names an EBB but carries no version is treated as unverified",
     ]
+    coverage["rule"] += ('; every gated feature again with 20 nickname texts (blank, white space only, protocol words, version-like, 16 / 17 / 64 characters) and 18 timeout / state pairs x 12 versions')
     return {"part": part, "coverage": coverage, "assumptions": assumptions}
 
 
